@@ -332,7 +332,11 @@ def check_case(rep, run, pending, tmpdir, idx, label, grid, x, mask, from_csv):
             # decode both through the model
             _, ts_n, ys_n = irregular_raw(res["nan"][1], grid)
             on_grid = all(t.shape == grid.shape and np.array_equal(t, grid) for t in ts_n)
-            scale = max(1.0, max(float(np.nanmax(np.abs(y))) for y in ys_n if np.isfinite(y).any()))
+            scale = max([1.0] + [float(np.nanmax(np.abs(y))) for y in ys_n if np.isfinite(y).any()])
+            if not all(np.isfinite(y[mask[i]]).all() for i, y in enumerate(ys_n) if y.shape == mask[i].shape):
+                rep.disagreements_checked += 1
+                limited_violation(rep, name + "/nan/nan", f"{name}: non-finite values at observed cells of the NaN-encoded result", case)
+                continue
             if not on_grid:
                 terms.append((f"{name}: result of the NaN encoding is no longer on the common grid", "false"))
                 continue
